@@ -53,6 +53,12 @@ def run(ctx: Ctx):
               ' aggregates of a stage without being materialised (R-C03-6'
               ' single-pass discipline over transform.py / tree_fns.py)',
               c03.r6, ('chainables.transform', 'chainables.tree_fns'), 'R-C03-6', 8, min_instances=8)
+  from mlmverif.props import c17
+  ctx.include('R-C02-12', '"adding or removing slicers never changes the unsliced result, and no slice key is'
+              ' invented": a pipeline reaches its workers pickled — __getstate__ of the operator classes'
+              ' keeps every declared field of the instance\'s own class (R-C17-5), so subclass'
+              ' configuration such as TreeAggregateFn.disable_slicing survives the round trip',
+              c17.r5, min_instances=1)
   from mlmverif.props import c18
   ctx.include('R-C02-11', '"applying the aggregate function directly to the selected input'
               ' columns": a column literally named like a reserved key (\'SELF\') selects'
